@@ -18,6 +18,11 @@ pub fn path_str(tcx: TyCtxt<'_>, did: DefId) -> String {
     ty::print::with_crate_prefix!(ty::print::with_no_trimmed_paths!(tcx.def_path_str(did)))
 }
 
+/// Absolute definition path (crate name + DefPath), independent of re-exports and of the crate it is printed from.
+pub fn abs_path(tcx: TyCtxt<'_>, did: DefId) -> String {
+    format!("{}{}", tcx.crate_name(did.krate), tcx.def_path(did).to_string_no_crate_verbose())
+}
+
 /// Canonical, module-location independent name of a function-like definition:
 /// inherent methods `Type::name`, trait impl methods `<Self as Trait>::name`,
 /// closures / nested fns `<canonical parent>::{closure#n}`.
@@ -233,6 +238,7 @@ fn callee_j<'tcx>(tcx: TyCtxt<'tcx>, owner: DefId, body: &Body<'tcx>, func: &Ope
         let gargs = ty::print::with_crate_prefix!(ty::print::with_no_trimmed_paths!(format!("{:?}", cargs)));
         let trait_did = tcx.trait_of_assoc(cdid);
         let mut resolved = J::Null;
+        let mut resolved_did = cdid;
         let mut virt = false;
         let mut res_kind = J::Null;
         let env = ty::TypingEnv::post_analysis(tcx, owner);
@@ -242,6 +248,7 @@ fn callee_j<'tcx>(tcx: TyCtxt<'tcx>, owner: DefId, body: &Body<'tcx>, func: &Ope
                     virt = true;
                 }
                 ty::InstanceKind::Item(d) => {
+                    resolved_did = d;
                     if d != cdid || trait_did.is_none() {
                         resolved = J::s(cpath(tcx, d));
                     } else if trait_did.is_some() {
@@ -280,6 +287,7 @@ fn callee_j<'tcx>(tcx: TyCtxt<'tcx>, owner: DefId, body: &Body<'tcx>, func: &Ope
         obj! {
             "callee": J::s(declared),
             "resolved": resolved,
+            "dp": J::s(abs_path(tcx, resolved_did)),
             "res_kind": res_kind,
             "trait": trait_did.map(|t| J::s(path_str(tcx, t))).unwrap_or(J::Null),
             "self_ty": self_ty,
